@@ -94,3 +94,54 @@ func vtName(p *vtMsg, vals []*vtMsg, names []string) string {
 	}
 	return fmt.Sprintf("%p", p)
 }
+
+func init() {
+	eng.Register(&eng.Scenario{
+		Name: "cc-any-history", Props: []string{"C15"}, Det: true, NoRace: true, MustFinish: true, ObsNames: stdObs,
+		Doc:   "CContainer[any] (interface-typed cell): every sequence of 4 SetValue calls over {nil, (*int)(nil), (*string)(nil), a non-nil *int, 0}: values are told apart by interface equality (a typed nil pointer is a value, different from nil and from a nil pointer of another type); GetValue returns what was stored last, WaitValue / WaitValueEmpty / WaitValueChange with an already-cancelled context return at once exactly when their condition holds",
+		Quick: eng.Bounds{PB: 0}, Thorough: eng.Bounds{PB: 0},
+		Body: func() {
+			one := 1
+			vals := []any{nil, (*int)(nil), (*string)(nil), &one, 0}
+			names := []string{"nil", "(*int)(nil)", "(*string)(nil)", "&one", "0"}
+			nm := func(v any) string {
+				for i, x := range vals {
+					if x == v {
+						return names[i]
+					}
+				}
+				return fmt.Sprintf("%#v", v)
+			}
+			c := ccontainer.NewCContainer[any](nil)
+			var model any
+			dead, cancel := context.WithCancel(context.Background())
+			cancel()
+			var hist []string
+			for step := 0; step < 4; step++ {
+				l := vsched.Choose(len(vals))
+				hist = append(hist, "SetValue("+names[l]+")")
+				c.SetValue(vals[l])
+				model = vals[l]
+				if got := c.GetValue(); got != model {
+					fail("C15.atomic", "%v: GetValue=%s, want %s", hist, nm(got), nm(model))
+					return
+				}
+				v, err := c.WaitValue(dead, nil)
+				if model != nil && (v != model || err != nil) || model == nil && err == nil {
+					fail("C15.condition", "%v: the cell holds %s; WaitValue (context already cancelled) returned (%s,%v)", hist, nm(model), nm(v), err)
+					return
+				}
+				if err := c.WaitValueEmpty(dead, nil); (err == nil) != (model == nil) {
+					fail("C15.condition", "%v: the cell holds %s; WaitValueEmpty (context already cancelled) returned %v", hist, nm(model), err)
+					return
+				}
+				old := vals[(l+1)%len(vals)]
+				v, err = c.WaitValueChange(dead, old, nil)
+				if v != model || err != nil {
+					fail("C15.condition", "%v: the cell holds %s; WaitValueChange(old=%s) (context already cancelled) returned (%s,%v)", hist, nm(model), nm(old), nm(v), err)
+					return
+				}
+			}
+		},
+	})
+}
